@@ -262,3 +262,160 @@ def tiling(segs, full):
     if cur != full:
         return False, "last segment ends at %s, array length is %s" % (cur, full)
     return True, "ok"
+
+
+# ---------------------------------------------------------------------------------------------------------------
+# Role names of the locals of build_system_matrix.  The analyses above address the assembler's arrays by the names the
+# repository uses today (system_data, fn, slack_nodes ...).  So that a renaming of locals does not change any verdict, the
+# function is first rewritten with *role* names that are resolved from what each local is, not from how it is called.
+def _names(node):
+    return {n.id for n in ast.walk(node) if isinstance(n, ast.Name)}
+
+
+def bsm_roles(fnode):
+    """{local name in the source: role name} for build_system_matrix"""
+    params = [a.arg for a in fnode.args.args]
+    if len(params) != 4:
+        raise AnalysisError("build_system_matrix no longer has 4 parameters")
+    netp, bp, np_, hm = params
+    roles = {}
+
+    def role(actual, name):
+        if isinstance(actual, str) and actual not in params:
+            roles.setdefault(actual, name)
+
+    assigns = [n for n in ast.walk(fnode) if isinstance(n, ast.Assign)]
+    consts = {}
+    # the type constants tuple: a, b, c, ... = (NODE_TYPE, P, ...) if not heat_mode else (...)
+    for a in assigns:
+        t, v = a.targets[0], a.value
+        if isinstance(t, ast.Tuple) and isinstance(v, ast.IfExp) and isinstance(v.body, ast.Tuple) and len(t.elts) == len(v.body.elts) == 6:
+            for e, nm in zip(t.elts, ("ntyp_col", "slack_type", "pcn_type", "pcb_type", "branch_type", "num_der")):
+                if isinstance(e, ast.Name):
+                    role(e.id, nm)
+                    consts[nm] = e.id
+    inv = lambda nm: next((k for k, v in roles.items() if v == nm), None)
+    for a in assigns:
+        t, v = a.targets[0], a.value
+        if not isinstance(t, ast.Name):
+            continue
+        s = U(v).replace(" ", "").replace('"', "'")
+        if s == "len(%s)" % bp:
+            role(t.id, "len_b")
+        elif s == "len(%s)" % np_:
+            role(t.id, "len_n")
+        elif "'only_update_hydraulic_matrix'" in s and "get_net_option" in s:
+            role(t.id, "update_option")
+        elif "'hydraulic_data_sorting'in" in s:
+            role(t.id, "update_only")
+        elif s == "get_net_option(%s,'use_numba')" % netp:
+            role(t.id, "use_numba")
+        elif s.startswith("np.lexsort("):
+            role(t.id, "data_order")
+        elif s in ("%s[:,FROM_NODE].astype(np.int32)" % bp, "get_from_nodes_corrected(%s)" % bp):
+            role(t.id, "fn")
+        elif s in ("%s[:,TO_NODE].astype(np.int32)" % bp, "get_to_nodes_corrected(%s)" % bp):
+            role(t.id, "tn")
+    lb, ln = inv("len_b"), inv("len_n")
+    for a in assigns:
+        t, v = a.targets[0], a.value
+        if not isinstance(t, ast.Name):
+            continue
+        s = U(v).replace(" ", "")
+        if lb and ln and s == "np.arange(%s)+%s" % (lb, ln):
+            role(t.id, "branch_matrix_indices")
+        for typ, nm in (("slack_type", "slack_nodes"), ("pcn_type", "pc_nodes")):
+            if consts.get(typ) and consts.get("ntyp_col") and s == "np.where(%s[:,%s]==%s)[0]" % (np_, consts["ntyp_col"], consts[typ]):
+                role(t.id, nm)
+        if consts.get("branch_type") and consts.get("pcb_type") and s == "%s[:,%s]==%s" % (bp, consts["branch_type"], consts["pcb_type"]):
+            role(t.id, "pc_branch_mask")
+    bmi, sl, pcm = inv("branch_matrix_indices"), inv("slack_nodes"), inv("pc_branch_mask")
+    for a in assigns:
+        t, v = a.targets[0], a.value
+        if not isinstance(t, ast.Name):
+            continue
+        s = U(v).replace(" ", "")
+        if bmi and pcm and s == "%s[%s]" % (bmi, pcm):
+            role(t.id, "pc_matrix_indices")
+        if sl and s == "len(%s)" % sl:
+            role(t.id, "len_sl")
+        if ln and s.startswith("np.arange(%s)[%s[:,INFEED]" % (ln, np_)):
+            role(t.id, "infeed_node")
+    lsl = inv("len_sl")
+    for a in assigns:
+        t, v = a.targets[0], a.value
+        if isinstance(t, ast.Name) and lsl and lb and ln and U(v).replace(" ", "") == "np.arange(%s)+%s+%s" % (lsl, lb, ln):
+            role(t.id, "slack_mass_matrix_indices")
+    # the triplet arrays: csr_matrix((data, (rows, cols)), shape=...)
+    for c in ast.walk(fnode):
+        if isinstance(c, ast.Call) and U(c.func).endswith("csr_matrix") and c.args and isinstance(c.args[0], ast.Tuple) \
+                and len(c.args[0].elts) == 2 and isinstance(c.args[0].elts[1], ast.Tuple) and len(c.args[0].elts[1].elts) == 2:
+            d, (r_, c_) = c.args[0].elts[0], c.args[0].elts[1].elts
+            if all(isinstance(x, ast.Name) for x in (d, r_, c_)):
+                role(d.id, "system_data")
+                role(r_.id, "system_rows")
+                role(c_.id, "system_cols")
+                mtx = None
+    sd = inv("system_data")
+    for a in assigns:
+        t, v = a.targets[0], a.value
+        if isinstance(t, ast.Name) and t.id == sd and isinstance(v, ast.Call) and U(v.func) in ("np.zeros", "np.empty") and v.args \
+                and isinstance(v.args[0], ast.Name):
+            role(v.args[0].id, "full_len")
+        if isinstance(t, ast.Name) and isinstance(v, ast.Call) and U(v.func).endswith("csr_matrix"):
+            role(t.id, "system_matrix")
+    for r in ast.walk(fnode):
+        if isinstance(r, ast.Return) and isinstance(r.value, ast.Tuple) and len(r.value.elts) == 2 and isinstance(r.value.elts[1], ast.Name):
+            role(r.value.elts[1].id, "load_vector")
+    # np.where over the outer comparison with the slack nodes, and the grouped sums of the load vector
+    fnn, tnn = inv("fn"), inv("tn")
+    for a in assigns:
+        t, v = a.targets[0], a.value
+        if not (isinstance(t, ast.Tuple) and len(t.elts) == 2 and all(isinstance(e, ast.Name) for e in t.elts) and isinstance(v, ast.Call)):
+            continue
+        s = U(v).replace(" ", "")
+        for end, col in (("from", "FROM_NODE"), ("to", "TO_NODE")):
+            if sl and s == "np.where(%s[:,%s]==%s[:,None])" % (bp, col, sl):
+                role(t.elts[0].id, "slack_masses_" + end)
+                role(t.elts[1].id, "slack_branches_" + end)
+    smf, smt = inv("slack_masses_from"), inv("slack_masses_to")
+    for a in assigns:
+        t, v = a.targets[0], a.value
+        if not (isinstance(t, ast.Tuple) and len(t.elts) == 2 and all(isinstance(e, ast.Name) for e in t.elts) and isinstance(v, ast.Call)
+                and U(v.func).endswith("_sum_by_group") and len(v.args) == 3 and isinstance(v.args[1], ast.Name)):
+            continue
+        key_ = v.args[1].id
+        for actual, nm in ((fnn, "fn"), (tnn, "tn"), (smf, "fsb"), (smt, "tsb")):
+            if actual and key_ == actual:
+                role(t.elts[0].id, nm + "_unique")
+                role(t.elts[1].id, nm + "_sums")
+    # a role name that is still used by another local would collide
+    taken = {n for n in _names(fnode)} - set(roles)
+    roles = {k: v for k, v in roles.items() if v == k or v not in taken}
+    return roles
+
+
+class _Rename(ast.NodeTransformer):
+    def __init__(self, mapping):
+        self.m = mapping
+
+    def visit_Name(self, node):
+        if node.id in self.m:
+            return ast.copy_location(ast.Name(id=self.m[node.id], ctx=node.ctx), node)
+        return node
+
+
+def canonical_bsm(index):
+    """FunctionInfo of build_system_matrix with its locals renamed to their role names (positions are kept)"""
+    import copy
+    from .index import FunctionInfo
+    f = index.func("pandapipes.pf.build_system_matrix.build_system_matrix")
+    roles = bsm_roles(f.node)
+    mapping = {k: v for k, v in roles.items() if k != v}
+    if not mapping:
+        return f
+    node = _Rename(mapping).visit(copy.deepcopy(f.node))
+    ast.fix_missing_locations(node)
+    g = FunctionInfo(f.module, f.name, node, cls=f.cls)
+    g.local_imports = f.local_imports
+    return g
